@@ -25,8 +25,9 @@ LEVEL = "translation_validation"
 
 def py_subjects(g):
     out = []
+    groups = {e["name"]: e["group"] for e in g.index}
     for name in g.names():
-        if g.status.get(name, {}).get("python") != "ok":
+        if g.status.get(name, {}).get("python") != "ok" or groups.get(name) == "borderline":
             continue
         try:
             pm = pyeval.PyModule(g.path(name, "py"), name)
